@@ -106,6 +106,9 @@ func init() {
 		}
 	}
 	genFull := func(g *G) {
+		if g.Lite() {
+			return
+		}
 		// 2000 channels.  Channel 1 only becomes reportable later (its validity start lies ahead), so the other 1999
 		// report twice first; then all 2000 are reportable in the same round; then channel 1 is voted out and the
 		// rest keep reporting.  Every channel's windows must still tile.
@@ -150,6 +153,9 @@ func init() {
 		return []any{J{"sid": "1", "v": svJ(llo.ToDecimal(decimal.New(1001, -2)))}, J{"sid": "2", "v": svJ(llo.ToDecimal(decimal.New(1002, -2)))}, J{"sid": "3", "v": svJ(llo.ToDecimal(decimal.New(1003, -2)))}}
 	}
 	genFullHandover := func(g *G) {
+		if g.Lite() {
+			return
+		}
 		for _, nch := range []int{1999, 2000} {
 			w := newWorld(g)
 			w.f, w.version, w.interval, w.alias, w.verbose = 1, 1, 1, 0, false
@@ -210,6 +216,9 @@ func init() {
 	// A successor that inherits the maximum number of validity starts and holds channels of its own is promoted and
 	// retired in the same round; everything must then stay frozen, round after round.
 	genBigInheritance := func(g *G) {
+		if g.Lite() {
+			return
+		}
 		for _, nch := range []int{1998, 2000} {
 			w := newWorld(g)
 			w.f, w.version, w.interval, w.alias, w.verbose, w.hasPred = 1, 1, 1, 0, false, true
@@ -254,6 +263,9 @@ func init() {
 	// every observation within its own limit): each referenced pair holds a timestamped aggregate; observers go on
 	// reporting a few of them, then nothing.  Nothing may disappear or go back in time.
 	genManyStreams := func(g *G) {
+		if g.Lite() {
+			return
+		}
 		for _, ver := range []uint32{1, 0} {
 			w := newWorld(g)
 			w.f, w.version, w.interval, w.alias, w.verbose, w.hasPred = 1, ver, uint64(ver), 0, false, false
@@ -351,6 +363,9 @@ func init() {
 	// plugin does with it, it must do the same every time.
 	genValueLimit := func(nBig int, prop string) Gen {
 		return func(g *G) {
+			if g.Lite() {
+				return
+			}
 			for _, ver := range []uint32{1, 0} {
 				w := newWorld(g)
 				w.f, w.hasPred, w.version, w.interval, w.alias, w.verbose = 1, false, ver, uint64(ver), 0, false
